@@ -16,7 +16,8 @@ RULE = ('gen: 0..40 blocks x 1..12 primary variables (same count in every block;
         'exponents, simulator-printed names) -> lib read; shipped: the 7 shipped files vs their .npy arrays, the '
         'independent reader and a write/read/write cycle. Non-trivial = >=1 block and (a negative or 3-digit-exponent '
         'value, >4 variables, permeabilities, timing kept, or a quirk name); distinct = distinct case JSON.'
-        ' Also: the written object may already have been written once elsewhere (with or without reset).')
+        ' Also: the written object may already have been written once elsewhere (with or without reset).'
+        ' Rounds 7-10: NSEQ / NADD independently present; another set refused earlier in the process; sets built through insert / delete / replace edits; the reused reader held up to 8 variables per block before.')
 ASSUMPTIONS = ['every block of one file has the same number of primary variables (reader contract)',
                'TOUGHREACT flavour only when at least one block carries permeabilities (the format has no other marker)',
                'values that do not fit 20.13e are allowed to lose digits (C02), never to change otherwise']
